@@ -159,6 +159,29 @@ CHECKS = {
              "address-space and time limits",
         technique="TLA+ reference trace spec + TLC validation of crash images enumerated at every file-system call",
         design="DESIGN.md §5 C11"),
+    "C04": dict(
+        level="model_checking",
+        text="Cluster simulator: 2-3 real Databases with their real replication loop and supervisor, simulated "
+             "FIFO links in place of the TCP dial; the cluster is formed through the real supervisor and link "
+             "handshake; every operation kind at every node, seeded sequences of 2-8 operations at arbitrary "
+             "nodes and two concurrent clients on the primary, under FIFO and seeded random FIFO-respecting "
+             "delivery orders; TLC validates every trace against the ClusterMonitor reference Trace_Cluster "
+             "(at quiescence every node has the primary's databases, values, live status and versions; "
+             "nothing pending).",
+        note="links simulated (one FIFO per direction per dialled connection), per-line transport glue "
+             "re-implemented in the harness; roles set directly (elections are C07); the design-level cluster "
+             "model is the trace specification itself, no stand-alone TLC exploration of the protocol yet",
+        technique="TLA+ reference monitor (ClusterMonitor) + TLC trace validation of real multi-node runs on simulated links",
+        design="DESIGN.md §5 C04"),
+    "C14": dict(
+        level="model_checking",
+        text="Every client-visible command on every node of 2- and 3-node clusters (none / newer / arbiter "
+             "databases), FIFO and random delivery orders, step budget far above the bound; TLC validates each "
+             "trace against Trace_Cluster group BUDGET: quiescence is reached, per operation at most two "
+             "forwards, two copies per secondary, one ack per copy, and no copy is ever sent by a non-primary.",
+        note="messages counted on the simulated links; reply lines other than ok are acks or ignored session lines",
+        technique="TLA+ reference monitor + TLC trace validation of real multi-node runs (message budget)",
+        design="DESIGN.md §5 C14"),
 }
 
 NOT_YET = "check not built yet (build in progress; see DESIGN.md §8 build order)"
